@@ -403,6 +403,80 @@ func runC09(c *core.Ctx) {
 			}
 		}
 	}
+	// ---- conditions below the meta-fields (__schema, __type, __typename), ONE parsed executable resolved under every ordered pair
+	// of variable assignments: what introspection answers is schema data, the selection on it follows the variables of each call
+	{
+		const text = `query Q($sk: Boolean = false, $inc: Boolean = true) { __schema { queryType { name kind @skip(if: $sk) } q2: queryType @include(if: $inc) { name } ... @skip(if: $sk) { mutationType { name } } } __type(name: "A") { name kind @include(if: $inc) } t: __typename @skip(if: $sk) }`
+		var midx int64
+		for first := 0; first < 5; first++ {
+			for second := 0; second < 5; second++ {
+				midx++
+				if !c.OwnsIdx(1<<45 + midx) {
+					continue
+				}
+				c.R.Distinct++
+				c.Nontrivial()
+				root, _, err := world.BuildRoot(world.Config{Strat: world.RS, Schema: s}, g0)
+				if err != nil {
+					panic(core.EngineError{Msg: err.Error()})
+				}
+				exe, perr := root.ParseExecutableString(text)
+				if perr != nil {
+					panic(core.EngineError{Msg: "C09 meta-field document refused: " + perr.Error()})
+				}
+				for step, code := range []int{first, second} {
+					vars := map[string]interface{}{}
+					sk, inc := false, true
+					if code < 4 {
+						sk, inc = code&1 == 1, code&2 == 0
+						vars["sk"], vars["inc"] = sk, inc
+					}
+					c.Eval()
+					var res map[string]interface{}
+					var rerr error
+					if pi := core.Safe(func() { res, rerr = root.ResolveExecutable(exe, "Q", vars) }); pi != nil {
+						c.Violation("panic", map[string]string{"site": pi.Site, "class": pi.Class}, map[string]interface{}{"query": text, "vars": vars})
+						break
+					}
+					var bad []string
+					has := func(path ...string) bool {
+						var cur interface{} = res["data"]
+						if cur == nil {
+							cur = map[string]interface{}(res)
+						}
+						for _, k := range path {
+							m, _ := cur.(map[string]interface{})
+							v, ok := m[k]
+							if !ok {
+								return false
+							}
+							cur = v
+						}
+						return true
+					}
+					expect := func(want bool, path ...string) {
+						if has(path...) != want {
+							bad = append(bad, fmt.Sprintf("%v present=%v, want %v", path, !want, want))
+						}
+					}
+					expect(true, "__schema", "queryType", "name")
+					expect(!sk, "__schema", "queryType", "kind")
+					expect(inc, "__schema", "q2")
+					expect(!sk, "__schema", "mutationType")
+					expect(true, "__type", "name")
+					expect(inc, "__type", "kind")
+					expect(!sk, "t")
+					if rerr != nil || len(bad) > 0 {
+						c.Outcome("reuse-meta-diff")
+						c.Violation("data-diff", map[string]string{"reuse": "same-parsed-executable", "selection": "meta-fields", "step": fmt.Sprint(step)},
+							map[string]interface{}{"query": text, "vars": vars, "step": step, "diff": bad, "error": fmt.Sprint(rerr), "response": res})
+						break
+					}
+					c.Outcome("reuse-meta-agree")
+				}
+			}
+		}
+	}
 	// ---- conditions on the payload of subscription events: the request is resolved once, its selection is evaluated again for
 	// every event with the variables of the request as they were then (given, or left to their defaults). Complete table:
 	// directive x {literal, variable given, variable left to its default} x value, on a field and on an inline fragment, for
@@ -515,5 +589,5 @@ func runC09(c *core.Ctx) {
 			}
 		}
 	}
-	c.R.Bound = "complete table 49 x 2 x 3 x 3 x configurations; the same for selections directly on a union / interface container and for __typename; the selection written twice (9 x 9 directive states x 3 kinds x 2 spacings); + all ordered pairs of 9 variable maps (supplied / omitted) on one parsed executable; + the payload of a subscription event: 2 directives x 7 condition sources, squared, parsed afresh and prepared"
+	c.R.Bound = "complete table 49 x 2 x 3 x 3 x configurations; the same for selections directly on a union / interface container and for __typename; the selection written twice (9 x 9 directive states x 3 kinds x 2 spacings); + all ordered pairs of 9 variable maps (supplied / omitted) on one parsed executable; + conditions below __schema / __type / __typename under all ordered pairs of 5 variable assignments on one parsed executable; + the payload of a subscription event: 2 directives x 7 condition sources, squared, parsed afresh and prepared"
 }
